@@ -28,6 +28,57 @@ mod rotator;
 mod skipper;
 mod unroller;
 
+/// The individual passes, exposed for the conformance harness only.
+#[cfg(pest_parser_pest_verif)]
+pub mod verif {
+    /// `rotator::rotate`
+    pub fn rotate(rule: Rule) -> Rule {
+        super::rotator::rotate(rule)
+    }
+    /// `skipper::skip`
+    pub fn skip(rule: Rule, map: &HashMap<String, super::Expr>) -> Rule {
+        super::skipper::skip(rule, map)
+    }
+    /// `unroller::unroll`
+    pub fn unroll(rule: Rule) -> Rule {
+        super::unroller::unroll(rule)
+    }
+    /// `concatenator::concatenate`
+    pub fn concatenate(rule: Rule) -> Rule {
+        super::concatenator::concatenate(rule)
+    }
+    /// `factorizer::factor`
+    pub fn factor(rule: Rule) -> Rule {
+        super::factorizer::factor(rule)
+    }
+    /// `lister::list`
+    pub fn list(rule: Rule) -> Rule {
+        super::lister::list(rule)
+    }
+    /// `restorer::restore_on_err`
+    pub fn restore_on_err(
+        rule: OptimizedRule,
+        rules: &HashMap<String, OptimizedExpr>,
+    ) -> OptimizedRule {
+        super::restorer::restore_on_err(rule, rules)
+    }
+    use super::{OptimizedExpr, OptimizedRule, Rule};
+    use std::collections::HashMap;
+
+    /// Conversion of a rule after the `Expr -> Expr` passes.
+    pub fn convert(rule: Rule) -> OptimizedRule {
+        super::rule_to_optimized_rule(rule)
+    }
+    /// The name -> expression map `optimize` hands to `skip`.
+    pub fn expr_map(rules: &[Rule]) -> HashMap<String, super::Expr> {
+        super::to_hash_map(rules)
+    }
+    /// The name -> expression map `optimize` hands to `restore_on_err`.
+    pub fn optimized_map(rules: &[OptimizedRule]) -> HashMap<String, OptimizedExpr> {
+        super::to_optimized_hash_map(rules)
+    }
+}
+
 /// Takes pest's ASTs and optimizes them
 pub fn optimize(rules: Vec<Rule>) -> Vec<OptimizedRule> {
     let map = to_hash_map(&rules);
